@@ -167,15 +167,27 @@ class EventHandler(abc.ABC):
         name_tuple = split_qname(qname)
         self.attrs[name_tuple] = self.encode_data(value)
 
-    def add_namespace(self, uri: str | None) -> None:
+    def add_namespace(self, uri: str | None, prefixed: bool = False) -> None:
         """Add the given uri to the current namespace context.
 
          If the uri empty or a prefix already exists, skip silently.
 
+         Attributes don't inherit the default namespace, they
+         need a uri that is bound to an actual prefix.
+
         Args:
             uri: The namespace URI
+            prefixed: Specifies if the default namespace doesn't qualify
         """
-        if uri and not prefix_exists(uri, self.ns_map):
+        if not uri:
+            return
+
+        if prefixed:
+            exists = any(ns == uri for prefix, ns in self.ns_map.items() if prefix)
+        else:
+            exists = prefix_exists(uri, self.ns_map)
+
+        if not exists:
             generate_prefix(uri, self.ns_map)
 
     def set_data(self, data: Any) -> None:
@@ -242,7 +254,7 @@ class EventHandler(abc.ABC):
             self.attrs.pop(XSI_NIL, None)
 
         for name in self.attrs:
-            self.add_namespace(name[0])
+            self.add_namespace(name[0], prefixed=True)
 
         self.reset_default_namespace()
         self.start_namespaces()
